@@ -126,7 +126,7 @@ def jobs(pid, tier):
                      ('support', 'essential', 'count', 'pick_iter', 'pick')]))
         J.append(Job('sat', dict(N=4 if q else 5, L=3), need_outcomes=['returned:' + e for e in
                      ('support', 'essential', 'count', 'pick_iter', 'pick')]))
-        J.append(Job('sat', dict(N=4, L=4, kinds=['support', 'essential']),
+        J.append(Job('sat', dict(N=5, L=4, kinds=['support', 'essential']),
                      need_outcomes=['returned:support', 'returned:essential']))
         if not q:
             J.append(Job('sat', dict(N=4, L=4, kinds=['count', 'pick']),
@@ -193,6 +193,9 @@ def jobs(pid, tier):
     if pid == 'C18':
         J.append(Job('views', dict(N=4, L=2), need_outcomes=['viewed:' + k for k in
                      ('expand_function', 'expand_succ', 'descendants', 'to_nx', 'to_dot')]))
+        # the views read vars / _level_to_var / _succ: the operations that rewrite them keep them in step
+        J.append(Job('k9_undeclare', dict(N=4, L=3), need_outcomes=['removed', 'refused']))
+        J.append(Job('k7_swap', dict(N=4, L=2, x=0, K=2, handle=True), need_outcomes=['swapped']))
     if pid == 'C19':
         for w in ('cudd', 'cudd_zdd', 'sylvan', 'buddy'):
             J.append(Job('pyx', dict(which=w), need_outcomes=['compared'], procs=4))
